@@ -2,21 +2,28 @@
    Property theorems only; each is closed by `exact` of a lemma from Proofs/.
 
    Proved for ALL dimensions, start levels, versions 2/3/6/7/8 (any outcome of the version-3 float rounding), boundary
-   on/off, margins, benefit assignments and histories:
+   on/off, margins, benefit assignments, histories and ALL option settings (rebalancing on or off, any safety factor, any
+   outcome of the binary64 rebalancing test):
    * the stripes depend only on (dimension, component level), grow monotonically with the level (for EVERY state, no
-     invariant needed), are strictly sorted and contain both end points (for every state whose trees tile [a,b], i.e.
-     every reachable state without rebalancing by C06, and every state accepted by the verified checker tree_ok);
+     invariant needed), are strictly sorted and contain both end points in EVERY reachable state
+     (C03_stripes_sorted_with_endpoints_reachable; the C06 invariant survives rebalancing: Proofs/RebalanceSeg.v);
    * the component grids are the tensor products of these stripes;
-   * the scheme invariant of C01 survives every step (rebalancing or not), hence by the abstract combination lemma
-     (Proofs/CombiAbstract.v) every point of the combined grid has component-grid coefficients summing to exactly 1:
-     for every reachable state without rebalancing, and for every reachable state with rebalancing that passes tree_ok.
+   * the scheme invariant of C01 survives every step, hence by the abstract combination lemma (Proofs/CombiAbstract.v) every
+     point of the combined grid has component-grid coefficients summing to exactly 1 in EVERY reachable state
+     (C03_point_coeff_sum_one_reachable);
    * the combined interpolant (Model/DimWiseInterp.v: scipy interpn(linear) on the stripes = dimension-by-dimension
      piecewise-linear interpolation, zero boundary values when boundary = False) reproduces an ARBITRARY function exactly at
-     every point of the combined grid (Proofs/NodalExact.v instantiated with the stripes), same two classes of states. *)
+     every point of the combined grid in EVERY reachable state (C03_nodal_exact_reachable; Proofs/NodalExact.v instantiated
+     with the stripes);
+   * the same for every state reached from an installed valid state (the states the harness constructs directly).
+   The earlier statements (_reachable_norebalance, and _reachable_checked with the verified checker as hypothesis) are kept;
+   they are now special cases.  C03_every_history needs no definedness hypothesis: the run exists for every history
+   (selection loop, rebalancing asserts/fuel and the raise_lmax loop are proved total, Proofs/DimWiseTotal.v). *)
 From Coq Require Import ZArith List Bool QArith Qcanon Sorted.
 From SG Require Import Base.QcUtil Model.CombiScheme Model.RefTree Model.DimWise Model.DimWiseInterp
      Proofs.SchemeInv Proofs.CombiAbstract Proofs.RefTreeInv Proofs.RefTreeCheck Proofs.DimWiseInv
-     Proofs.DimWiseStripes Proofs.DimWiseCombi Proofs.C03Main Proofs.DimWiseNodal Proofs.DimWiseFuel.
+     Proofs.DimWiseStripes Proofs.DimWiseCombi Proofs.C03Main Proofs.DimWiseNodal Proofs.DimWiseFuel Proofs.C03Any.
+From SG Require Import Model.DimWiseInstall.
 Import ListNotations.
 Open Scope Z_scope.
 
@@ -126,6 +133,65 @@ Proof. exact dw_checked_nodal_exact. Qed.
 Print Assumptions C03_nodal_exact_reachable_checked.
 
 (* ---------------------------------------------------------------------------------------------------------- *)
+(* EVERY reachable state, every option setting (rebalancing included): no checker hypothesis any more *)
+Theorem C03_stripes_sorted_with_endpoints_reachable : forall n lmin lmax a b o steps st0 st d l t s,
+  Forall2 (fun p q => (p < q)%Qc) a b ->
+  dw_init (S n) lmin lmax a b = Some st0 -> dw_run o steps st0 = Some st ->
+  nth_error (st_trees st) d = Some t -> stripe_dim o st d l = Some s ->
+  StronglySorted Qclt (map fst s) /\ exists r, s = (nth d a 0%Qc, 0) :: r ++ [(nth d b 0%Qc, 0)].
+Proof. exact dw_any_stripes_sorted_with_endpoints. Qed.
+Print Assumptions C03_stripes_sorted_with_endpoints_reachable.
+
+Theorem C03_point_coeff_sum_one_reachable : forall n lmin lmax a b o steps st0 st x l0 c0,
+  Forall2 (fun p q => (p < q)%Qc) a b ->
+  dw_init (S n) lmin lmax a b = Some st0 -> dw_run o steps st0 = Some st ->
+  In (l0, c0) (combi_scheme_adaptive (st_scheme st)) -> dw_in_comp o st x l0 = true ->
+  dw_coeff_sum o st x = 1.
+Proof. exact dw_any_point_coeff_sum_one. Qed.
+Print Assumptions C03_point_coeff_sum_one_reachable.
+
+Theorem C03_nodal_exact_reachable : forall n lmin lmax a b o steps st0 st (f : list Qc -> Qc) x l0 c0,
+  Forall2 (fun p q => (p < q)%Qc) a b ->
+  dw_init (S n) lmin lmax a b = Some st0 -> dw_run o steps st0 = Some st ->
+  In (l0, c0) (combi_scheme_adaptive (st_scheme st)) -> dw_in_comp o st x l0 = true ->
+  dw_combi_interp o st a b f x = f x.
+Proof. exact dw_any_nodal_exact. Qed.
+Print Assumptions C03_nodal_exact_reachable.
+
+(* every state reached from an installed valid state (what the harness constructs directly, Model/DimWiseInstall.v) *)
+Theorem C03_point_coeff_sum_one_installed : forall n lmin lmax a b o rb trees steps st0 st1 st x l0 c0,
+  Forall2 (fun p q => (p < q)%Qc) a b ->
+  dw_init (S n) lmin lmax a b = Some st0 ->
+  (forall d t, nth_error trees d = Some t -> Seg (nth d a 0%Qc) (nth d b 0%Qc) 0 0 t) ->
+  dw_install o rb trees st0 = Some st1 -> dw_run o steps st1 = Some st ->
+  In (l0, c0) (combi_scheme_adaptive (st_scheme st)) -> dw_in_comp o st x l0 = true ->
+  dw_coeff_sum o st x = 1.
+Proof. exact dw_installed_point_coeff_sum_one. Qed.
+
+Theorem C03_nodal_exact_installed : forall n lmin lmax a b o rb trees steps st0 st1 st (f : list Qc -> Qc) x l0 c0,
+  Forall2 (fun p q => (p < q)%Qc) a b ->
+  dw_init (S n) lmin lmax a b = Some st0 ->
+  (forall d t, nth_error trees d = Some t -> Seg (nth d a 0%Qc) (nth d b 0%Qc) 0 0 t) ->
+  dw_install o rb trees st0 = Some st1 -> dw_run o steps st1 = Some st ->
+  In (l0, c0) (combi_scheme_adaptive (st_scheme st)) -> dw_in_comp o st x l0 = true ->
+  dw_combi_interp o st a b f x = f x.
+Proof. exact dw_installed_nodal_exact. Qed.
+Print Assumptions C03_nodal_exact_installed.
+
+(* no definedness hypothesis: for EVERY history (every dimension >= 1, start configuration accepted by initialize_refinement,
+   version, option setting, sequence of benefit assignments) the run exists, and in its final state the trees tile the
+   domain, every point of the combined grid has coefficient sum 1 and the combined interpolant is nodally exact *)
+Theorem C03_every_history : forall n lmin lmax a b o steps st0,
+  Forall2 (fun p q => (p < q)%Qc) a b -> dw_init (S n) lmin lmax a b = Some st0 ->
+  exists st, dw_run o steps st0 = Some st /\ DwInv a b st /\ TilesOK a b st /\
+    (forall x l0 c0, In (l0, c0) (combi_scheme_adaptive (st_scheme st)) -> dw_in_comp o st x l0 = true ->
+       dw_coeff_sum o st x = 1) /\
+    (forall (f : list Qc -> Qc) x l0 c0, In (l0, c0) (combi_scheme_adaptive (st_scheme st)) -> dw_in_comp o st x l0 = true ->
+       dw_combi_interp o st a b f x = f x).
+Proof. exact dw_every_history. Qed.
+Print Assumptions C03_every_history.
+
+(* ---------------------------------------------------------------------------------------------------------- *)
 (* non-vacuity: d = 2, lmin 1, lmax 2, box [0,1] x [-1,1], version 6, boundary off, two refinement steps *)
 Definition q (n : Z) (d : positive) : Qc := Q2Qc (n # d).
 Definition ex_o : dw_opts :=
@@ -161,4 +227,41 @@ Proof.
   unfold ex_run in E. destruct (dw_init 2 1 2 ex_a ex_b) as [st0|] eqn:E0; [|discriminate].
   eapply (C03_point_coeff_sum_one_reachable_norebalance 1 1 2 ex_a ex_b ex_o ex_steps st0 st);
     [repeat constructor | reflexivity | exact E0 | exact E | exact Hin | exact H2].
+Qed.
+
+(* non-vacuity with rebalancing: three refinements at the right end of dimension 0 rotate the tree (the root moves from 1/2
+   to 3/4); the point (15/16, 1/2) of the combined grid lies in the component grid (3,1) *)
+Definition ex_or : dw_opts :=
+  mkOpts 6 true true (Q2Qc (9 # 10)) (rebalance_dec_exact (Q2Qc (1 # 10))) (v3_dec_exact 2).
+Definition ex_a2 := [q 0 1; q 0 1].
+Definition ex_steps2 := [ [[q 0 1; q 0 1; q 0 1; q 1 1]; [q 0 1; q 0 1; q 0 1; q 0 1]];
+                          [[q 0 1; q 0 1; q 0 1; q 0 1; q 1 1]; [q 0 1; q 0 1; q 0 1; q 0 1]];
+                          [[q 0 1; q 0 1; q 0 1; q 0 1; q 0 1; q 1 1]; [q 0 1; q 0 1; q 0 1; q 0 1]] ].
+Definition ex_run2 : option dw_state :=
+  match dw_init 2 1 2 ex_a2 ex_b with Some st0 => dw_run ex_or ex_steps2 st0 | None => None end.
+
+Example C03_nonvacuous_rebalanced :
+  exists st, ex_run2 = Some st /\
+    map (fun iv => (this (i_end iv), i_l1 iv)) (nth 0 (st_trees st) [])
+      = [(1 # 4, 3); (1 # 2, 2); (3 # 4, 1); (7 # 8, 3); (15 # 16, 2); (31 # 32, 3); (1%Q, 0)] /\
+    In ([3; 1], 1) (combi_scheme_adaptive (st_scheme st)) /\ dw_in_comp ex_or st [q 15 16; q 1 2] [3; 1] = true /\
+    dw_coeff_sum ex_or st [q 15 16; q 1 2] = 1 /\
+    (forall f : list Qc -> Qc, dw_combi_interp ex_or st ex_a2 ex_b f [q 15 16; q 1 2] = f [q 15 16; q 1 2]).
+Proof.
+  destruct ex_run2 as [st|] eqn:E; [|vm_compute in E; discriminate].
+  exists st. split; [reflexivity|].
+  assert (H : option_map (fun st => (map (fun iv => (this (i_end iv), i_l1 iv)) (nth 0 (st_trees st) []),
+                                     combi_scheme_adaptive (st_scheme st), dw_in_comp ex_or st [q 15 16; q 1 2] [3; 1])) ex_run2
+              = Some ([(1 # 4, 3); (1 # 2, 2); (3 # 4, 1); (7 # 8, 3); (15 # 16, 2); (31 # 32, 3); (1%Q, 0)],
+                      [([1; 2], 1); ([1; 1], -1); ([3; 1], 1)], true))
+    by (vm_compute; reflexivity).
+  rewrite E in H. simpl in H. injection H as H1 H2 H3.
+  assert (Hin : In ([3; 1], 1) (combi_scheme_adaptive (st_scheme st))) by (rewrite H2; right; right; left; reflexivity).
+  split; [exact H1|]. split; [exact Hin|]. split; [exact H3|].
+  unfold ex_run2 in E. destruct (dw_init 2 1 2 ex_a2 ex_b) as [st0|] eqn:E0; [|discriminate].
+  split.
+  - eapply (C03_point_coeff_sum_one_reachable 1 1 2 ex_a2 ex_b ex_or ex_steps2 st0 st);
+      [repeat constructor | exact E0 | exact E | exact Hin | exact H3].
+  - intro f. eapply (C03_nodal_exact_reachable 1 1 2 ex_a2 ex_b ex_or ex_steps2 st0 st);
+      [repeat constructor | exact E0 | exact E | exact Hin | exact H3].
 Qed.
